@@ -504,14 +504,14 @@ theorem C14_of_acts (v : SetView) (cur upd : String) (pods : List Pod) (r : Int)
     unfold condemnedSpec
     rw [List.filter_congr (fun p _ => isCondemned_eq hb0 hE0 p.ord)]
 
-theorem updateStatefulSet_par (v : SetView) (cur upd : String) (pods : List Pod) (r : Int)
+theorem updateStatefulSet_par' (v : SetView) (cur upd : String) (pods : List Pod) (r : Int)
     (hr : v.replicas = some r) (h0 : 0 ≤ r) (hpar : v.parallel = true) (hdel : v.deleting = false)
-    (hs : Snap pods) (hb : (maxReplicaAndSlots r v.slots).1 ≤ maxInt32) (hord : ∀ p ∈ pods, p.ord < maxInt32) :
+    (hs : Snap pods) :
     (updateStatefulSet v cur upd pods []).2 = .ok ∧
     C14 v pods (observe (updateStatefulSet v cur upd pods []).1.acts) = true := by
   unfold updateStatefulSet
   cases hp : prepare v cur upd pods with
-  | error e => obtain ⟨st, o⟩ := e; exact absurd hp (prepare_calm v cur upd pods r hr hb hord st o)
+  | error e => obtain ⟨st, o⟩ := e; exact absurd hp (prepare_calm' v cur upd pods r hr st o)
   | ok p =>
     simp only [hdel, Bool.false_eq_true, if_false]
     obtain ⟨_, hreps, hcond, _, _⟩ := prepare_ok hr hp
@@ -522,5 +522,13 @@ theorem updateStatefulSet_par (v : SetView) (cur upd : String) (pods : List Pod)
     rw [hreps, hcond]
     rw [hreps] at h3
     exact C14_of_acts v cur upd pods r hr h0 hs.toI l h3
+
+/-- the former statement, with the int32 bounds the repaired first-unhealthy scan no longer needs (kept for its users) -/
+theorem updateStatefulSet_par (v : SetView) (cur upd : String) (pods : List Pod) (r : Int)
+    (hr : v.replicas = some r) (h0 : 0 ≤ r) (hpar : v.parallel = true) (hdel : v.deleting = false)
+    (hs : Snap pods) (_hb : (maxReplicaAndSlots r v.slots).1 ≤ maxInt32) (_hord : ∀ p ∈ pods, p.ord < maxInt32) :
+    (updateStatefulSet v cur upd pods []).2 = .ok ∧
+    C14 v pods (observe (updateStatefulSet v cur upd pods []).1.acts) = true :=
+  updateStatefulSet_par' v cur upd pods r hr h0 hpar hdel hs
 
 end Asts.L1c
